@@ -502,7 +502,56 @@ func c08handlers(c *Ctx) {
 		}
 		r.Check(maxOK && nSt == 2, "PATH", key+"/max(request,limit)", c.Pos(fn.Pos()), "the larger of request and limit is scaled", sprintf("the estimator does not scale max(request, limit) (%d assignments of quantity; %s)", nSt, strings.Join(why, "; ")))
 
-		// units and cap
+		// units and cap. The limit and the product may be written once per arm of the resource switch, or once behind a
+		// selection of (value, limit) per arm: both are read as alternatives keyed by the arm they come from.
+		type accAlt struct {
+			from *ssa.BasicBlock // nil: not selected by a merge
+			acc  string
+		}
+		accessorAlts := func(v ssa.Value, is func(ssa.Value) bool) []accAlt {
+			v = firstSource(v)
+			if cl, ok := v.(*ssa.Call); ok && len(cl.Call.Args) == 1 && is(cl.Call.Args[0]) {
+				return []accAlt{{nil, an.ShortCallee(&cl.Call)}}
+			}
+			if phi, ok := v.(*ssa.Phi); ok {
+				var out []accAlt
+				for k, e := range phi.Edges {
+					cl, ok := firstSource(e).(*ssa.Call)
+					if !ok || len(cl.Call.Args) != 1 || !is(cl.Call.Args[0]) {
+						return nil
+					}
+					out = append(out, accAlt{phi.Block().Preds[k], an.ShortCallee(&cl.Call)})
+				}
+				return out
+			}
+			return nil
+		}
+		isQ := func(v ssa.Value) bool { return cellIs(v, qcell) }
+		var productAlts func(v ssa.Value, d int) []accAlt
+		productAlts = func(v ssa.Value, d int) []accAlt {
+			if d > 10 {
+				return nil
+			}
+			if a := accessorAlts(v, isQ); a != nil {
+				return a
+			}
+			switch x := firstSource(v).(type) {
+			case *ssa.Convert:
+				return productAlts(x.X, d+1)
+			case *ssa.BinOp:
+				if a := productAlts(x.X, d+1); a != nil {
+					return a
+				}
+				return productAlts(x.Y, d+1)
+			case *ssa.Call:
+				for _, arg := range x.Call.Args {
+					if a := productAlts(arg, d+1); a != nil {
+						return a
+					}
+				}
+			}
+			return nil
+		}
 		unitOK, nCap := true, 0
 		var uwhy []string
 		for _, b := range fn.Blocks {
@@ -511,90 +560,97 @@ func c08handlers(c *Ctx) {
 				if !ok || bo.Op != token.GTR {
 					continue
 				}
-				// estimatedUsed > limit : X derives from a product of quantity accessor, Y is limit accessor
-				lc, _ := an.ResultOfCall(firstSource(bo.Y))
-				if lc == nil || !lim(lc.Call.Args[0]) {
+				la := accessorAlts(bo.Y, lim)
+				qa := productAlts(bo.X, 0)
+				if la == nil || qa == nil {
 					continue
 				}
-				accL := an.ShortCallee(&lc.Call)
-				accQ := ""
-				for x := range backwardAll(bo.X) {
-					if cl, ok := x.(*ssa.Call); ok && len(cl.Call.Args) == 1 && cellIs(cl.Call.Args[0], qcell) {
-						accQ = an.ShortCallee(&cl.Call)
+				nCap += len(la)
+				agree := len(la) == len(qa)
+				if agree {
+					for k := range la {
+						found := false
+						for m := range qa {
+							if qa[m].from == la[k].from && qa[m].acc == la[k].acc {
+								found = true
+							}
+						}
+						if !found {
+							agree = false
+						}
 					}
 				}
-				if accQ == "" {
-					continue
-				}
-				nCap++
-				if accQ != accL {
+				if !agree {
 					unitOK = false
-					uwhy = append(uwhy, sprintf("%s: product in %s, cap in %s", c.InstrPos(bo), accQ, accL))
+					uwhy = append(uwhy, sprintf("%s: product in %v, cap in %v", c.InstrPos(bo), qa, la))
 				}
-				// the store of the limit into the estimate is guarded by this comparison and by limit > 0
-				capped := false
+				// the limit becomes the result only under this comparison and limit > 0
+				lv := firstSource(bo.Y)
+				guardsOK := func(gs []an.Guard) bool {
+					gt, pos := false, false
+					for _, g := range gs {
+						if g.Cond == ssa.Value(bo) && g.Truth {
+							gt = true
+						}
+						if rel, ok := an.RelOf(g); ok && firstSource(rel.X) == lv {
+							if k, isC := constIntOf(rel.Y); isC && ((rel.Op == token.GTR && k == 0) || (rel.Op == token.GEQ && k == 1) || (rel.Op == token.NEQ && k == 0)) {
+								pos = true
+							}
+						}
+					}
+					return gt && pos
+				}
+				capped, loose := false, false
 				for _, b2 := range fn.Blocks {
 					for _, in2 := range b2.Instrs {
-						st, ok := in2.(*ssa.Store)
-						if !ok {
-							continue
-						}
-						if c2, _ := an.ResultOfCall(firstSource(st.Val)); c2 != lc {
-							continue
-						}
-						gt, pos := false, false
-						for _, g := range an.Guards(st) {
-							if g.Cond == ssa.Value(bo) && g.Truth {
-								gt = true
+						switch x := in2.(type) {
+						case *ssa.Store:
+							if firstSource(x.Val) == lv {
+								if guardsOK(an.Guards(x)) {
+									capped = true
+								} else {
+									loose = true
+								}
 							}
-							if rel, ok := an.RelOf(g); ok {
-								if c3, _ := an.ResultOfCall(firstSource(rel.X)); c3 == lc {
-									if k, isC := constIntOf(rel.Y); isC && ((rel.Op == token.GTR && k == 0) || (rel.Op == token.GEQ && k == 1) || (rel.Op == token.NEQ && k == 0)) {
-										pos = true
+						case *ssa.Return:
+							for _, res := range x.Results {
+								if firstSource(res) == lv {
+									if guardsOK(an.Guards(x)) {
+										capped = true
+									} else {
+										loose = true
 									}
 								}
 							}
-						}
-						if gt && pos {
-							capped = true
-						}
-					}
-				}
-				// SSA may have turned the assignment into a merge: accept a phi fed by the limit on the arm of the comparison
-				if !capped {
-					for _, b2 := range fn.Blocks {
-						for _, in2 := range b2.Instrs {
-							phi, ok := in2.(*ssa.Phi)
-							if !ok {
+						case *ssa.Phi:
+							if ssa.Value(x) == lv {
 								continue
 							}
-							for i, e := range phi.Edges {
-								if c2, _ := an.ResultOfCall(firstSource(e)); c2 != lc {
+							for k, e := range x.Edges {
+								if firstSource(e) != lv {
 									continue
 								}
-								gt, pos := false, false
-								for _, g := range an.BlockGuards(b2.Preds[i]) {
-									if g.Cond == ssa.Value(bo) && g.Truth {
-										gt = true
+								gs := an.BlockGuards(b2.Preds[k])
+								if pi, ok := b2.Preds[k].Instrs[len(b2.Preds[k].Instrs)-1].(*ssa.If); ok && len(b2.Preds[k].Succs) == 2 {
+									pc, neg := an.StripNot(pi.Cond)
+									t := b2.Preds[k].Succs[0] == b2
+									if neg {
+										t = !t
 									}
-									if rel, ok := an.RelOf(g); ok {
-										if c3, _ := an.ResultOfCall(firstSource(rel.X)); c3 == lc {
-											if k, isC := constIntOf(rel.Y); isC && ((rel.Op == token.GTR && k == 0) || (rel.Op == token.GEQ && k == 1) || (rel.Op == token.NEQ && k == 0)) {
-												pos = true
-											}
-										}
-									}
+									gs = append(gs, an.Guard{Cond: pc, Truth: t, If: pi})
 								}
-								if gt && pos {
+								if guardsOK(gs) {
 									capped = true
+								} else {
+									loose = true
 								}
 							}
 						}
 					}
 				}
-				if !capped {
+				if !capped || loose {
 					unitOK = false
-					uwhy = append(uwhy, sprintf("%s: the limit is not assigned exactly under estimate > limit && limit > 0", c.InstrPos(bo)))
+					uwhy = append(uwhy, sprintf("%s: the limit becomes the estimate under estimate > limit && limit > 0=%v, elsewhere too=%v", c.InstrPos(bo), capped, loose))
 				}
 			}
 		}
